@@ -948,6 +948,165 @@ def check_make_unconstrained(ctx, rep):
               "make_unconstrained must handle (0,1), lower>0, lower≤0 and simplex constraints")
 
 
+# ---------------------------------------------------------------------------
+# C19.V — an identifier is not built from the leftover variable of an earlier loop
+# ---------------------------------------------------------------------------
+STALE_POSITIVE = """
+def f(parts, out):
+    for subst_id, site_id, model in parts:
+        out.append(subst_id)
+    for _, sid, _ in parts:
+        out.append({'id': f"{sid}.shape.prior", 'x': f"{site_id}.shape"})
+    for tag in ('a', 'b'):
+        out.append(tag)
+    tag = 'c'
+    for k in (1, 2):
+        out.append(tag)
+"""
+
+
+def stale_loop_variables(fn):
+    def targets(t):
+        return {x.id for x in ast.walk(t) if isinstance(x, ast.Name)} - {'_'}
+    loops = [l for l in ast.walk(fn) if isinstance(l, ast.For)]
+    out = []
+    for l2 in loops:
+        for l1 in loops:
+            if l1 is l2 or l1.end_lineno >= l2.lineno:
+                continue
+            stale = targets(l1.target) - targets(l2.target)
+            for u in ast.walk(l2):
+                if isinstance(u, ast.Name) and isinstance(u.ctx, ast.Load) and u.id in stale:
+                    redefined = any(isinstance(a, ast.Name) and isinstance(a.ctx, ast.Store) and a.id == u.id and l1.end_lineno < a.lineno <= u.lineno for a in ast.walk(fn))
+                    if not redefined:
+                        out.append((u, l1, l2))
+    return out, len(loops)
+
+
+def check_stale_loop_variables(ctx, rep):
+    t = ast.parse(STALE_POSITIVE)
+    got = [(u.id, u.lineno) for u, _, _ in stale_loop_variables(t.body[0])[0]]
+    if got != [('site_id', 6)]:
+        raise AnalysisError(f"C19.V self-check failed: {got}")
+    n = 0
+    for mname, m in sorted(ctx.prog.modules.items()):
+        if not mname.startswith('torchtree.cli'):
+            continue
+        for fn in ast.walk(m.tree):
+            if not isinstance(fn, ast.FunctionDef):
+                continue
+            hits, nl = stale_loop_variables(fn)
+            n += nl
+            seen = set()
+            for u, l1, l2 in hits:
+                key = f"{mname.replace('torchtree.', '')}::{fn.name}::{u.id}"
+                if key in seen:
+                    continue
+                seen.add(key)
+                rep.bad('C19.V', key, where(m, u), {'loop_that_set_it': l1.lineno, 'loop_that_uses_it': l2.lineno},
+                        f"{fn.name}: `{u.id}` is the loop variable of the loop at line {l1.lineno}; the loop at line {l2.lineno} uses it without setting it, so every iteration sees the "
+                        f"value left over from the last iteration of the earlier loop (identifiers / references built from it all name the same object)")
+            if nl and not hits:
+                rep.ok('C19.V', f"{mname.replace('torchtree.', '')}::{fn.name}::no-leftover-loop-variable", where(m, fn), {'loops': nl})
+    if n < 40:
+        rep.incomplete('C19.V', '*', '', f"only {n} loops found in the CLI builders")
+
+def check_fixed_parameters_stay_fixed(ctx, rep):
+    """The builders mark a parameter that must not be estimated by giving it equal lower and upper bounds (K80 / SYM / codon frequencies: "it is a simplex but it is fixed").
+    make_unconstrained dispatches on an if/elif chain; the chain's order is the priority.  Every branch that turns the parameter into a free (transformed) parameter must be
+    unreachable for an object that carries both bounds: it comes after the both-bounds test, or its own test excludes the bounds."""
+    um = ctx.prog.module(f"{CLI}.utils")
+    fn = um.functions.get('make_unconstrained')
+    if fn is None:
+        raise AnalysisError('make_unconstrained not found')
+    # the chain under `if 'type' in json_object and json_object['type'] == 'Parameter'`
+    top = [n for n in ast.walk(fn) if isinstance(n, ast.If) and "== 'Parameter'" in ast.unparse(n.test).replace('"', "'")]
+    if len(top) != 1 or not top[0].body or not isinstance(top[0].body[0], ast.If):
+        raise Unsupported(fn, 'dispatch chain of make_unconstrained not recognised')
+    chain = []
+    node = top[0].body[0]
+    while True:
+        chain.append((node.test, node.body))
+        if len(node.orelse) == 1 and isinstance(node.orelse[0], ast.If):
+            node = node.orelse[0]
+        else:
+            if node.orelse:
+                chain.append((None, node.orelse))
+            break
+
+    def both_bounds(test):
+        t = ast.unparse(test) if test is not None else ''
+        return 'LOWER.value in' in t and 'UPPER.value in' in t and ' and ' in t and 'not in' not in t
+
+    def excludes_bounds(test):
+        t = ast.unparse(test) if test is not None else ''
+        return 'LOWER.value not in' in t or 'UPPER.value not in' in t
+
+    def frees(body):
+        return [c for st in body for c in ast.walk(st) if isinstance(c, ast.Call) and isinstance(c.func, ast.Attribute) and c.func.attr == 'append'
+                and isinstance(c.func.value, ast.Name) and c.func.value.id == 'parameters_unres']
+    pos = next((i for i, (t, _) in enumerate(chain) if t is not None and both_bounds(t)), None)
+    if pos is None:
+        rep.bad('C19.U', 'make_unconstrained::fixed-parameters-stay-fixed', where(um, fn), None,
+                "make_unconstrained has no branch for parameters that carry both a lower and an upper bound: parameters fixed by equal bounds are handed to the sampler")
+        return
+    for i, (t, body) in enumerate(chain[:pos]):
+        fr = frees(body)
+        ok = not fr or excludes_bounds(t)
+        rep.check('C19.U', f"make_unconstrained::fixed-parameters-stay-fixed::branch-{norm_text(t)[:40]}", ok, where(um, t), {'position_in_chain': i, 'both_bounds_test_at': pos},
+                  f"the branch `{norm_text(t)[:60]}` is tested before the both-bounds branch and makes the parameter free: a parameter the builders fixed with equal bounds "
+                  f"(K80 / SYM / codon frequencies carry the simplex flag *and* equal bounds) is transformed, handed to the sampler and gets a Jacobian without a prior")
+    # inside the both-bounds branch only the unit interval is made free; unequal bounds raise; equal bounds fall through untouched
+    t, body = chain[pos]
+    inner_ok = False
+    if len(body) == 1 and isinstance(body[0], ast.If):
+        it = ast.unparse(body[0].test)
+        unit = '== 0' in it and '== 1' in it
+        rest = body[0].orelse
+        raises = len(rest) == 1 and isinstance(rest[0], ast.If) and '!=' in ast.unparse(rest[0].test) and any(isinstance(x, ast.Raise) for x in ast.walk(rest[0])) and not rest[0].orelse
+        inner_ok = unit and (raises or not rest) and not any(frees([x]) for x in rest)
+    rep.check('C19.U', 'make_unconstrained::fixed-parameters-stay-fixed::equal-bounds-left-alone', inner_ok, where(um, t), None,
+              "inside the both-bounds branch only (0, 1) may become a free parameter; equal bounds must leave the object untouched (not appended to the free parameters)")
+    rep.ok('C19.U', 'make_unconstrained::dispatch-chain', where(um, fn), {'branches': len(chain), 'both_bounds_test_at': pos})
+
+
+def check_unconstraining_covers_the_configuration(ctx, rep):
+    """In every build_* function the pass that turns constrained parameters into transformed ones (make_unconstrained, or create_variational_model which calls it) is handed
+    the very list the function returns: objects placed beside the joint distribution (e.g. the SRD06 relative-rate parameters) are otherwise left constrained, get no
+    transform and are neither optimised nor sampled."""
+    n = 0
+    for mod, fname in (('advi', 'build_advi'), ('hmc', 'build_hmc'), ('mcmc', 'build_mcmc'), ('map', 'build_optimizer')):
+        m = ctx.prog.module(f"{CLI}.{mod}")
+        fn = m.functions.get(fname)
+        if fn is None:
+            raise AnalysisError(f"{mod}.{fname} not found")
+        rets = [r for r in ast.walk(fn) if isinstance(r, ast.Return) and isinstance(r.value, ast.Name)]
+        calls = [c for c in ast.walk(fn) if isinstance(c, ast.Call) and isinstance(c.func, ast.Name) and c.func.id in ('make_unconstrained', 'create_variational_model')]
+        key = f"{mod}.{fname}::constraints-removed-over-the-whole-configuration"
+        if len(rets) != 1 or len(calls) != 1:
+            rep.undecided('C19.U', key, where(m, fn), f"{len(rets)} returns of a name / {len(calls)} unconstraining calls")
+            continue
+        n += 1
+        c = calls[0]
+        arg = c.args[0] if c.func.id == 'make_unconstrained' else (c.args[1] if len(c.args) > 1 else None)
+        ok = isinstance(arg, ast.Name) and arg.id == rets[0].value.id
+        rep.check('C19.U', key, ok, where(m, c), {'walks': ast.unparse(arg) if arg is not None else None, 'returns': rets[0].value.id},
+                  f"{fname} removes the constraints from `{ast.unparse(arg) if arg is not None else '?'}` but returns `{rets[0].value.id}`: objects of the configuration outside "
+                  f"`{ast.unparse(arg) if arg is not None else '?'}` keep their constrained parameters, which get no transform and are not handed to the algorithm")
+    if n < 4:
+        rep.incomplete('C19.U', 'builders::constraints-removed-over-the-whole-configuration', '', f"only {n} of 4 builders decided")
+    # create_variational_model forwards what it is given
+    am = ctx.prog.module(f"{CLI}.advi")
+    cv = am.functions.get('create_variational_model')
+    if cv is not None and len(cv.args.args) > 1:
+        p = cv.args.args[1].arg
+        fw = [c for c in ast.walk(cv) if isinstance(c, ast.Call) and isinstance(c.func, ast.Name) and c.func.id in ('make_unconstrained', 'apply_transforms_for_fullrank', 'create_meanfield',
+                                                                                                                    'create_fullrank', 'create_realnvp', 'create_flexible_variational')
+              and c.args and any(isinstance(a, ast.Name) and a.id == p for a in c.args)]
+        rep.check('C19.U', 'advi.create_variational_model::walks-the-object-it-is-given', bool(fw), where(am, cv), {'forwarded_in': [norm_text(c)[:50] for c in fw][:3]},
+                  "create_variational_model must hand the configuration it receives to the family builders (which remove the constraints)")
+
+
 def run(ctx, rep):
     rep.explanation = (
         "Reader table: for every registered class the keys its from_json dereferences on every path to a normal return (CFG must-pass, helpers inlined) and "
@@ -964,11 +1123,12 @@ def run(ctx, rep):
     rep.rule('C19.U', "make_unconstrained: transform codomain = constraint; unconstrained value = inverse transform of the requested value; constrained tensor removed")
     rep.rule('C19.R', "identifiers referenced by loggers / samplers / Jacobian lists / reference-typed keys unify with an identifier template defined by the builders")
     rep.rule('C19.E', "every option value the parsers accept has a handler: under each accepted value no local is read where no assignment can reach it")
+    rep.rule('C19.V', "no identifier / reference in the builders is built from the leftover loop variable of an earlier loop")
     rep.rule('C19.N', "tensor-only torch functions are never applied to a plain Python number in the builders")
     rep.not_decided += ["finiteness of density and gradient at the initial point", "pairwise option coverage at run time", "plugins"]
     from props import c19_ids, c19_flow
-    steps = ((check_types_and_keys, 'C19.K'), (check_jacobians, 'C19.J'), (check_make_unconstrained, 'C19.U'), (check_advi_transforms, 'C19.U'), (c19_ids.check_ids, 'C19.R'),
-             (c19_flow.check_exhaustive, 'C19.E'), (c19_flow.check_pynum, 'C19.N'))
+    steps = ((check_types_and_keys, 'C19.K'), (check_jacobians, 'C19.J'), (check_make_unconstrained, 'C19.U'), (check_fixed_parameters_stay_fixed, 'C19.U'), (check_unconstraining_covers_the_configuration, 'C19.U'), (check_advi_transforms, 'C19.U'), (c19_ids.check_ids, 'C19.R'),
+             (c19_flow.check_exhaustive, 'C19.E'), (c19_flow.check_pynum, 'C19.N'), (check_stale_loop_variables, 'C19.V'))
     for f, rule in steps:
         try:
             f(ctx, rep)
